@@ -257,3 +257,69 @@ Proof.
   - exists (0 :: 7 :: repeat 1 78)%N. vm_compute. repeat split.
   - vm_compute. split; reflexivity.
 Qed.
+
+(* ------------------------------------------------------------------ *)
+(* 3. totality: the only panic of validateProve is big.Rat.Quo by a zero step in calQn, i.e. a zero
+      stake ratio, i.e. difficulty = totalStake / workingMiners = 0 *)
+Lemma qn_not_panic p v snum sden :
+  snum <> 0 -> qn_float p v snum sden <> QNPanic /\ qn_exact p v snum sden <> QNPanic.
+Proof.
+  intro Hs. unfold qn_float, qn_exact, clamp1.
+  destruct (sden <? snum).
+  - cbn [Z.eqb Z.ltb Z.compare]. split; [|discriminate].
+    destruct (f64_of_q _ _); [|discriminate].
+    destruct (_ <? 2 ^ 64); discriminate.
+  - destruct (Z.eqb_spec snum 0); [contradiction|].
+    destruct (snum <? 0); split; try discriminate.
+    destruct (f64_of_q _ _); [|discriminate].
+    destruct (_ <? 2 ^ 64); discriminate.
+Qed.
+
+Lemma calc_pp_range p ts : pp_min p <= pp_max p -> pp_min p <= calc_pp p ts <= pp_max p.
+Proof.
+  intro H. unfold calc_pp.
+  destruct (Z.ltb_spec (u64 (ts * pp_idx p) / 100) (pp_min p)); [lia|].
+  destruct (Z.ltb_spec (pp_max p) (u64 (ts * pp_idx p) / 100)); lia.
+Qed.
+
+Lemma stake_num_nonzero p h wm ts :
+  0 < pp_min p <= pp_max p -> 1 <= difficulty p h wm ts -> difficulty p h wm ts * pp_max p < 2 ^ 63 ->
+  stake_num p h wm ts <> 0.
+Proof.
+  intros Hpp Hd Hb. pose proof (calc_pp_range p ts ltac:(lia)) as Hc.
+  unfold stake_num, i64. set (d := difficulty p h wm ts) in *. set (c := calc_pp p ts) in *.
+  assert (Hr : 1 <= d * c < 2 ^ 63) by nia.
+  rewrite Z.mod_small by lia. destruct (Z.ltb_spec (d * c) (2 ^ 63)); lia.
+Qed.
+
+Lemma difficulty_ge1 p h wm ts :
+  0 <= wm -> ~ (wm <> 0 /\ thr p < h /\ ts < wm) -> 1 <= difficulty p h wm ts.
+Proof.
+  intros Hwm Hg. unfold difficulty.
+  destruct (Z.eqb_spec wm 0) as [|Hne]; cbn [negb andb]; [lia|].
+  destruct (Z.ltb_spec (thr p) h); [|lia].
+  assert (wm <= ts) by lia. apply Z.div_le_lower_bound; lia.
+Qed.
+
+Lemma validate_no_panic p (pi : bytes) h wm ts ok :
+  0 < pp_min p <= pp_max p -> 0 <= wm ->
+  ~ (wm <> 0 /\ thr p < h /\ ts < wm) ->
+  difficulty p h wm ts * pp_max p < 2 ^ 63 ->
+  validate_float p pi h wm ts <> VR ok QNPanic /\ validate_exact p pi h wm ts <> VR ok QNPanic.
+Proof.
+  intros Hpp Hwm Hg Hb.
+  pose proof (stake_num_nonzero p h wm ts Hpp (difficulty_ge1 p h wm ts Hwm Hg) Hb) as Hs.
+  unfold validate_float, validate_exact, validate_with.
+  destruct (ts =? 0); [split; discriminate|].
+  destruct (qn_not_panic p (Z.of_N (vrf_value pi)) _ (stake_den ts) Hs) as [H1 H2].
+  split; intro E; injection E as _ E; contradiction.
+Qed.
+
+(* fewer registered proposers than recently active ones above the difficulty switch height:
+   difficulty = 1 / 3 = 0, stake ratio 0, calQn divides by a zero step *)
+Lemma validate_zero_ratio_panics : exists p (pi : bytes) h wm ts,
+  0 < ts < wm /\ thr p < h /\ validate_float p pi h wm ts = VR false QNPanic.
+Proof.
+  exists node_params, (repeat 7%N 80), (thr node_params + 1), 3, 1.
+  split; [lia|]. split; [lia|]. vm_compute. reflexivity.
+Qed.
